@@ -49,11 +49,13 @@ def ret_type(sig):
         return "OptF"
     if t == "(usize,Option<Self::Item>)":
         return ("tuple", ("Nat", "Elem"))
+    if t == "(usize,T::Inner)":
+        return ("tuple", ("Nat", "Rat"))
     raise C.Unsupported(f"return type {t}")
 
 
 # functions of `AggValidExt` (tea-agg/src/lib.rs), translated after the ones above
-EXT_FNS = ["vkurt", "vpercentile_of"]
+EXT_FNS = ["vkurt", "vpercentile_of", "n_vsum_filter", "n_sum_filter", "vmean_filter"]
 # enum-typed parameters: Rust type -> Lean type (GenPrelude.lean)
 ENUMS = {"PercentileOfMethod": "PctMethod"}
 
@@ -122,6 +124,7 @@ def translate(name, sig, body_src, siblings, plain=False):
     iparams = re.findall(r"\b(\w+)\s*:\s*Self::Item\b", sig.split("->")[0].split("(", 1)[1]) if plain else []
     two = bool(re.search(r"\bother\s*:", sig))
     blk = rewrite_guard_let(C.P(C.tokenize(body_src)).block())
+    mask_params = re.findall(r"\b(mask)\s*:\s*I\b", sig.split("->")[0])
     enum_params = re.findall(r"\b(\w+)\s*:\s*(" + "|".join(ENUMS) + r")\b", sig.split("->")[0])
     # `let mut x = None;` without annotation: typed by trying the two option types the subset has
     untyped = [st[1][1] for st in blk[1] if st[0] == "let" and st[1][0] == "pvar" and st[3] == ("path", "None")
@@ -138,6 +141,7 @@ def translate(name, sig, body_src, siblings, plain=False):
         env.update({p: "Elem" for p in eparams})
         env.update({p: "Rat" for p in iparams})
         env.update({p: ("enum", ENUMS[t]) for p, t in enum_params})
+        env.update({p: "BoolList" for p in mask_params})
         try:
             txt, ty = em.stmts(blk[1], blk[2], env, [], rt)
             break
@@ -150,7 +154,8 @@ def translate(name, sig, body_src, siblings, plain=False):
     if ty != rt and not (ty == "Elem" and rt == "OptF") and not (ty == "OptF" and rt == "Elem"):
         raise C.Unsupported(f"result type {ty}, declared {rt}")
     L = [f"namespace {name}"]
-    ps = ("".join(f" ({C.lname(p)} : Option Rat)" for p in eparams) + "".join(f" ({C.lname(p)} : Rat)" for p in iparams)
+    ps = ("".join(f" ({C.lname(p)} : List (Option Bool))" for p in mask_params)
+          + "".join(f" ({C.lname(p)} : Option Rat)" for p in eparams) + "".join(f" ({C.lname(p)} : Rat)" for p in iparams)
           + "".join(f" ({C.lname(p)} : Nat)" for p in params)
           + "".join(f" ({C.lname(p)} : {ENUMS[t]})" for p, t in enum_params))
     ys = " (ys : List (Option Rat))" if two else ""
@@ -162,7 +167,7 @@ def translate(name, sig, body_src, siblings, plain=False):
     L.append(C.indent(txt, 2))
     L.append("def parsed : Bool := true")
     L.append(f"end {name}")
-    return "\n".join(L), rt, len(params), two
+    return "\n".join(L), rt, len(params) + len(mask_params), two
 
 
 def main():
